@@ -117,7 +117,7 @@ def run_cases(mod, cases, ctx):
     acc = Acc()
     for case in cases:
         try:
-            with ctx.horizon():
+            with ctx.horizon(getattr(mod, 'HORIZON_S', CASE_HORIZON_S)):
                 mod.run_case(case, ctx, acc)
         except gen_skip() as exc:
             acc.skipped += 1
